@@ -84,6 +84,13 @@ def run(ctx):
     # TRACE: seeded tracks at seeded resolutions
     cases = _notes.seeded_tracks(ctx, "C04", ctx.pick(400, 6000), flags_p=0.4)
     _notes._judge(ctx, cases, "C04", "seeded tracks", max_skip_ratio=0.01)
+    # sizes: sections of several hundred ticks
+    cases = []
+    for k in range(ctx.pick(3, 40)):
+        res_big = r.choice([192, 480, 7])
+        body = nt.random_track(r, r.choice([300, 700]), res=res_big, phrases=5, events=3, flags_p=0.4)
+        cases.append({"id": f"C04-big{k}", "res": res_big, "body": body, "tempo": [[0, 120000], [5000, 90000], [20000, 200000]]})
+    _notes._judge(ctx, cases, "C04", "seeded long sections", max_skip_ratio=0.0)
     # several instrument sections in one chart, each judged as if it were alone
     cases = _notes.seeded_multi(ctx, "C04", ctx.pick(150, 2500), flags_p=0.4)
     _notes._judge_multi(ctx, cases, "C04", "seeded charts with several sections", max_skip_ratio=0.02)
